@@ -511,6 +511,104 @@ def ext_grid_results(ctx):
         ctx.ob("count-positive-on-fixing-rows", "ensures", base + [fixing(r)], occ(node(r)) >= 1)
 
 
+# ---------------------------------------------------------------------------------------------
+# the node load column: reset by the junction writer on EVERY path (also when the pit is re-used between
+# transient time steps), then accumulated per junction by the constant-flow components
+
+JC = "pandapipes.component_models.junction_component"
+CF = "pandapipes.component_models.abstract_models.const_flow_models"
+CTB = "pandapipes.component_models.component_toolbox"
+
+
+def junction_accumulators_reset(ctx, colnames):
+    """after Junction.create_pit_node_entries every accumulator column (filled with `+=` by later writers) is 0
+    on every junction row, for every value of the transient / simulation_time_step options"""
+    f, t = z3.Int("f_j"), z3.Int("t_j")
+    n = t - f
+    cls = S.get_module(JC).classes["Junction"]
+    cols = {"height_m": "f", "in_service": "b", "tfluid_k": "f", "pn_bar": "f"}
+    transient, step = z3.Bool("opt_transient"), z3.Int("opt_time_step")
+
+    def mk():
+        net = K.NetObj({"junction": K.sym_table("junction", n, cols),
+                        "_options": {"transient": transient, "simulation_time_step": step},
+                        "_lookups": {"node_from_to": {"junction": (f, t)},
+                                     "node_table": {"n2t": {0: "junction"}, "t2n": {"junction": 0}}}})
+        return [cls, net, K.sym_pit("node_pit", NN, NCN)], {}
+    pamb = z3.Function("p_correction_height_air", z3.RealSort(), z3.RealSort())
+
+    def c_pamb(ev, args, kwargs):
+        h = args[0]
+        return Arr(h.n, lambda j, _h=h.f: pamb(_h(j)), "f")
+    paths = T.run_paths(ctx, JC + ":Junction.create_pit_node_entries", mk, contracts={CTB + ":p_correction_height_air": c_pamb})
+    ok = len(paths) >= 2 and all(p.exc is None for p in paths)
+    ctx.decided("junction_pit/paths", "cover", ok, witness=str([str(p.exc) for p in paths]))
+    if not ok:
+        return
+    i = z3.Int("i!row")
+    base = [f >= 0, f <= t, t <= NN, i >= 0, i < n]
+    cover = z3.Or(*[p.cond() for p in paths])
+    ctx.ob("junction_pit/paths-cover-all-options", "cover", base, cover)
+    for nm in colnames:
+        col = K.const(ND, nm)
+        g = z3.And(*[z3.Implies(z3.And(p.cond(), *p.facts), K.eq_val(p.args[0][2].f(f + i, col), 0)) for p in paths])
+        ctx.ob("junction_pit/%s-reset-on-every-path" % nm, "ensures", base, g)
+
+
+@unit("C01", "loads/accumulator_reset", functions=[JC + ":Junction.create_pit_node_entries"], engine="E3")
+def load_reset(ctx):
+    ctx.assume("A1", "A4", "A6", "A7")
+    junction_accumulators_reset(ctx, ["LOAD"])
+
+
+@unit("C01", "loads/node_load_column", functions=[CF + ":ConstFlow.create_pit_node_entries"], engine="E3")
+def node_load_column(ctx):
+    """ConstFlow.create_pit_node_entries adds, at the node of every junction that occurs, the group sum of the
+    signed scaled mass flows of the rows at that junction to LOAD and leaves every other node and column alone."""
+    ctx.assume("A1", "A4", "A6", "A7")
+    n, NL = z3.Int("NLD"), z3.Int("NLOOKUP")
+    cols = {"in_service": "b", "scaling": "f", "mdot_kg_per_s": ("f", True), "junction": "i"}
+    for modname, cname, tname, sgn in (("sink_component", "Sink", "sink", 1), ("source_component", "Source", "source", -1),
+                                       ("mass_storage_component", "MassStorage", "mass_storage", 1)):
+        cref = S.get_module("pandapipes.component_models." + modname).classes[cname]
+        gsum = GroupSums()
+
+        def mk(_t=tname, _c=cref, _g=gsum):
+            del _g.calls[:]
+            net = K.NetObj({_t: K.sym_table(_t, n, cols), "_options": {"use_numba": True},
+                            "_lookups": {"node_index": {"junction": K.sym_arr("junction_lookup", NL, "i")}}})
+            return [_c, net, K.sym_pit("node_pit", NN, NCN)], {}
+        paths = T.run_paths(ctx, CF + ":ConstFlow.create_pit_node_entries", mk, contracts={IT + ":_sum_by_group": gsum})
+        ok = len(paths) == 1 and paths[0].exc is None and len(gsum.calls) == 1 and len(gsum.calls[0]["gs"]) == 1
+        ctx.decided("%s/single-path-one-group-sum" % cname, "cover", ok, witness=str([str(p.exc) for p in paths]))
+        if not ok:
+            continue
+        p, rec = paths[0], gsum.calls[0]
+        tbl = K.sym_table(tname, n, cols)
+        np0 = K.sym_pit("node_pit", NN, NCN)
+        L = K.sym_arr("junction_lookup", NL, "i")
+        npf = p.args[0][2]
+        r = z3.Int("r")
+        mdot = tbl.columns["mdot_kg_per_s"].f(r)
+        term = V.R(ite(nan_of(mdot), 0, val_of(mdot))) * z3.If(tbl.columns["in_service"].f(r), 1.0, 0.0) * \
+            V.R(tbl.columns["scaling"].f(r)) * sgn
+        facts = list(p.facts) + [p.cond()]
+        ctx.ob("%s/group-sum-arguments" % cname, "ensures", [n >= 1, r >= 0, r < n] + facts,
+               z3.And(K.eq_val(rec["idx"].f(r), tbl.columns["junction"].f(r)), K.eq_val(rec["vals"][0].f(r), term)))
+        u, g = rec["u"], rec["gs"][0]
+        k, k2, kk, o, c = z3.Int("k!key"), z3.Int("k2!key"), z3.Int("kk"), z3.Int("o!node"), z3.Int("c!col")
+        inj = z3.ForAll([k, k2], z3.Implies(z3.And(k >= 0, k < u.n, k2 >= 0, k2 < u.n, k != k2), L.f(u.f(k)) != L.f(u.f(k2))))
+        rng = z3.ForAll([k], z3.Implies(z3.And(k >= 0, k < u.n), z3.And(L.f(u.f(k)) >= 0, L.f(u.f(k)) < NN)))
+        req = [n >= 1, NN >= 1, inj, rng] + facts
+        qq = L.f(u.f(kk))
+        ctx.ob("%s/load-accumulated-at-the-junction-node" % cname, "ensures", req + [kk >= 0, kk < u.n],
+               K.eq_val(npf.f(qq, N_LOAD), V.R(np0.f(qq, N_LOAD)) + g(u.f(kk))))
+        ctx.ob("%s/frame-other-nodes-and-columns" % cname, "frame",
+               req + [o >= 0, o < NN, c >= 0, c < NCN,
+                      z3.Or(c != N_LOAD, z3.ForAll([k], z3.Implies(z3.And(k >= 0, k < u.n), L.f(u.f(k)) != o)))],
+               K.eq_val(npf.f(o, c), np0.f(o, c)))
+
+
 @unit("C01", "lean_lemmas", engine="Lean")
 def lean_lemmas(ctx):
     """the Σ-lemmas over ANY number of branches per node / nodes per network (Lean 4 + Mathlib,
